@@ -152,7 +152,7 @@ def norm_inst(inst):
     """Fill in every field so that TLC never meets a missing record field."""
     i = dict(inst)
     i.setdefault("max", 2); i.setdefault("bufsize", 1)
-    i.setdefault("mode", "run"); i.setdefault("targets", [])
+    i.setdefault("mode", "run"); i.setdefault("targets", []); i.setdefault("patterns", [])
     i.setdefault("pre", []); i.setdefault("faults", {})
     procs = []
     for p in i["procs"]:
@@ -165,7 +165,7 @@ def norm_inst(inst):
     i["procs"] = procs
     def edge(e):
         e = dict(e)
-        e["fp"] = e["from"].rsplit(".", 1)[0]; e["tp"] = e["to"].rsplit(".", 1)[0]
+        e["fp"] = e["from"].rstrip(">").rsplit(".", 1)[0]; e["tp"] = e["to"].rsplit(".", 1)[0]
         return e
     i["edges"] = [edge(e) for e in i.get("edges", [])]
     i["pedges"] = [edge(e) for e in i.get("pedges", [])]
@@ -361,8 +361,18 @@ def normalize_flow(events, inst, end):
     out = [dict(e="header")]
     g2task = {}
     finished = set()
+    relays = {p["name"]: p["params"][0] for p in inst["procs"] if p["kind"] == "pcomb"}
+    for r, port in relays.items():
+        emit_outs.add("%s.%s>" % (r, port))
+    relay_in = {"%s.%s" % (r, port): r for r, port in relays.items()}
+    relay_got = {r: [] for r in relays}       # items sent to the relay's in-port, in send order
+    relay_started = set()
     def feedname(frm, to):
-        return to + "<feed" if frm.endswith(".string_feeder") else frm
+        if frm.endswith(".string_feeder"):
+            return to + "<feed"
+        if frm.rsplit(".", 1)[0] in relays and not (to in relay_in and relay_in[to] == frm.rsplit(".", 1)[0]):
+            return frm + ">"
+        return frm
     for ev in events:
         e = ev["ev"]
         if e == "wire.done":
@@ -375,9 +385,27 @@ def normalize_flow(events, inst, end):
             out.append(dict(e="run.start"))
         elif e in ("send.begin", "send.done", "sendp.begin", "sendp.done"):
             item = path_id(ev["path"]) if "path" in ev else ev["val"]
-            out.append(dict(e="send." + e.split(".")[1], to=ev["to"], item=item, **{"from": feedname(ev["from"], ev["to"])}))
+            frm = feedname(ev["from"], ev["to"])
+            if e.endswith(".begin") and ev["to"] in relay_in:
+                relay_got[relay_in[ev["to"]]].append(item)
+            rproc = frm[:-1].rsplit(".", 1)[0] if frm.endswith(">") else None
+            if rproc in relays and rproc not in relay_started:
+                # the component has no hooks: its receives are reconstructed (single upstream, channel order = send order)
+                relay_started.add(rproc)
+                port = "%s.%s" % (rproc, relays[rproc])
+                for it in relay_got[rproc]:
+                    out.append(dict(e="relay.recv", proc=rproc, port=port, closed=False, item=it))
+                out.append(dict(e="relay.recv", proc=rproc, port=port, closed=True, item=""))
+            out.append(dict(e="send." + e.split(".")[1], to=ev["to"], item=item, **{"from": frm}))
         elif e in ("conn.close", "connp.close"):
             frm = feedname(ev["from"], ev["port"])
+            rproc = frm[:-1].rsplit(".", 1)[0] if frm.endswith(">") else None
+            if rproc in relays and rproc not in relay_started:      # relay that emitted nothing
+                relay_started.add(rproc)
+                port = "%s.%s" % (rproc, relays[rproc])
+                for it in relay_got[rproc]:
+                    out.append(dict(e="relay.recv", proc=rproc, port=port, closed=False, item=it))
+                out.append(dict(e="relay.recv", proc=rproc, port=port, closed=True, item=""))
             if frm in emit_outs and frm not in finished:
                 finished.add(frm)
                 out.append(dict(e="em.finish", **{"from": frm}))
